@@ -198,7 +198,10 @@ fn find_content<'a>(
     let file_name_length = reader.read_u16::<LittleEndian>()? as u64;
     let extra_field_length = reader.read_u16::<LittleEndian>()? as u64;
     let magic_and_header = 4 + 22 + 2 + 2;
-    let data_start = data.header_start + magic_and_header + file_name_length + extra_field_length;
+    let data_start = data
+        .header_start
+        .checked_add(magic_and_header + file_name_length + extra_field_length)
+        .ok_or(ZipError::InvalidArchive("Invalid local file header offset"))?;
     data.data_start.store(data_start);
 
     reader.seek(io::SeekFrom::Start(data_start))?;
